@@ -1,5 +1,5 @@
 import StepModel.P21SafeLemmas
--- LOOPS_IMPORT
+import StepModel.P21SafeLoopLemmas
 import StepModel.Generated.C05Buffers
 /-! # C05 — reading and writing Part 21 is memory-safe and terminates (the part Lean can carry)
 
@@ -229,5 +229,71 @@ theorem C05_no_overflow_sprintf_partial :
   omega
 
 example : ∃ s, s ∈ C05.sprintfSites := ⟨_, List.mem_cons_self⟩
+
+/-! ## termination of the modelled loops (fuel = remaining bytes + constant; iteration count linear) -/
+
+theorem IS.meas_le (s : IS) : s.meas ≤ s.rest.length + 1 := by
+  unfold IS.meas; split <;> omega
+
+/-- `STEPfile::FindHeaderSection`'s search loop, with the regenerated `getline` count and give-up test: started with
+`fuel = |remaining bytes| + 2` it never runs out of fuel, and it makes at most `|remaining bytes| + 1` iterations. -/
+theorem C05_terminates_findHeaderSection (s : IS) (buf : List Byte) (steps : Nat) :
+    ∃ r, headerLoop C05.findHeaderGetlineN C05.findHeaderExit (s.rest.length + 2) s buf steps = .ok r
+      ∧ r.steps ≤ steps + (s.rest.length + 1) := by
+  have hx : C05.findHeaderExit = .notGood := by decide
+  rw [hx]
+  have hm := IS.meas_le s
+  obtain ⟨r, hr, hs⟩ := headerLoop_terminates C05.findHeaderGetlineN (s.rest.length + 2) s buf steps (by omega)
+  exact ⟨r, hr, by omega⟩
+
+/-- before `fixes/C05-6` (give-up test `in.eof()` only): once `getline` has set failbit without reaching the end
+(a run of `n-1` bytes without `;`), the loop never ends — for **every** amount of fuel the answer is out-of-fuel. -/
+theorem C05_findHeaderSection_hang_witness (n : Nat) (pre rest : List Byte) :
+    ∀ fuel, headerLoop n .eofOnly fuel ⟨pre, rest, false, true, true⟩ [] 0 = .outOfFuel :=
+  fun fuel => headerLoop_eofOnly_spins n fuel _ 0 rfl rfl
+
+/-- … and a concrete input that reaches that state (scaled: `getline( buf, 4, ';' )` on `xxxxx`) -/
+theorem C05_findHeaderSection_hang_witness_input :
+    ∀ fuel, headerLoop 4 .eofOnly fuel (IS.ofBytes [120, 120, 120, 120, 120]) [] 0 = .outOfFuel := by
+  intro fuel
+  cases fuel with
+  | zero => rfl
+  | succ f =>
+    have h1 : headerLoop 4 .eofOnly (f + 1) (IS.ofBytes [120, 120, 120, 120, 120]) [] 0
+        = headerLoop 4 .eofOnly f ⟨[120, 120, 120], [120, 120], false, true, true⟩ [120, 120, 120] 1 := by
+      rfl
+    rw [h1]
+    cases f with
+    | zero => rfl
+    | succ g =>
+      have h2 : headerLoop 4 .eofOnly (g + 1) ⟨[120, 120, 120], [120, 120], false, true, true⟩ [120, 120, 120] 1
+          = headerLoop 4 .eofOnly g ⟨[120, 120, 120], [120, 120], false, true, true⟩ [] 2 := by
+        rfl
+      rw [h2]
+      exact headerLoop_eofOnly_spins 4 g _ 2 rfl rfl
+
+/-- the inner loop of the `);` recovery scan at the end of `SDAI_Application_instance::STEPread`
+(`while( in.good() && c != ')' ) { in.get( c ); … }`): fuel `|remaining| + 2` suffices, iterations are linear,
+and it ends either on a `)` or on a stream that is no longer good. -/
+theorem C05_terminates_recoveryScan_inner (s : IS) (c : Byte) (len steps : Nat) :
+    ∃ s' c' len' steps', recoverInner (s.rest.length + 2) s c len steps = .ok (s', c', len', steps')
+      ∧ steps' ≤ steps + (s.rest.length + 1) ∧ (s'.good = true → c' = chRParen) := by
+  have hm := IS.meas_le s
+  obtain ⟨s', c', l', st', he, _, h2, h3⟩ := recoverInner_terminates (s.rest.length + 2) s c len steps (by omega)
+  exact ⟨s', c', l', st', he, by omega, h3⟩
+
+/-- `ReadComment`'s guarded loop is structurally bounded by the regenerated limit: at most `readCommentIters`
+(= MAX_COMMENT_LENGTH + 1) iterations whatever the input -/
+theorem C05_terminates_readComment_loop (s : IS) (c : Byte) (len steps : Nat) :
+    (commentLoop C05.readCommentIters s c len steps).2.2.2.2 ≤ steps + C05.readCommentIters := by
+  generalize C05.readCommentIters = iters
+  fun_induction commentLoop iters s c len steps <;> simp_all <;> omega
+
+/-- regenerated facts the file-level budget relies on (not modelled proofs): the comment limit and the error cut-off
+are finite constants of the size the constant `c₂` of the linear bound absorbs, and `PushPastImbedAggr` does not
+recurse on the nesting depth of the input -/
+theorem C05_limits_regenerated :
+    C05.readCommentIters = C05.maxCommentLength + 1 ∧ C05.maxErrorCount ≤ 100000 ∧ C05.imbedAggrRecursive = false
+      ∧ C05.exportLoopChecksStreamCreate = true ∧ C05.exportLoopChecksStreamRead = true := by decide
 
 end StepModel.P21Safe
